@@ -12,10 +12,12 @@ mod c03;
 mod c04;
 mod c06;
 mod c07;
+mod c08;
 mod c18;
 mod c11;
 mod c12;
 mod c13;
+mod c14;
 mod c15;
 mod c19;
 mod c20;
@@ -34,10 +36,12 @@ fn table() -> Vec<(&'static str, RunFn, RecheckFn)> {
         ("C04", c04::run, c04::recheck),
         ("C06", c06::run, c06::recheck),
         ("C07", c07::run, c07::recheck),
+        ("C08", c08::run, c08::recheck),
         ("C11", c11::run, c11::recheck),
         ("C18", c18::run, c18::recheck),
         ("C12", c12::run, c12::recheck),
         ("C13", c13::run, c13::recheck),
+        ("C14", c14::run, c14::recheck),
         ("C15", c15::run, c15::recheck),
         ("C19", c19::run, c19::recheck),
         ("C20", c20::run, c20::recheck),
